@@ -60,7 +60,7 @@ type AcctSpec struct {
 	CodeHash string     `json:"code_hash"`         // hex 32 bytes
 	Storage  []SlotSpec `json:"storage,omitempty"` // explicit slots
 	FillSeed uint64     `json:"fill_seed,omitempty"`
-	FillN    int        `json:"fill_n,omitempty"` // pseudo-random filler slots
+	FillN    int        `json:"fill_n,omitempty"`   // pseudo-random filler slots
 	RawAcct  string     `json:"raw_acct,omitempty"` // if set: this value is stored in the state trie instead of the account RLP
 }
 
@@ -566,6 +566,17 @@ func rootAt(sp *Spec, store []StoreEnt) ([]byte, bool) {
 func fillTables(res *Result, sp *Spec, p *ethtypes.Proof, contract []byte) {
 	addr := common.FromHex(p.Address)
 	addKeccak(res, addr)
+	// Keccak of every proof node: the Gallina MPT verifier (Model/EvmProofMpt.v) is evaluated on the same node lists
+	for _, n := range fromHexAll(p.AccountProof) {
+		addKeccak(res, n)
+	}
+	for _, s := range p.StorageProof {
+		if s != nil {
+			for _, n := range fromHexAll(s.Proof) {
+				addKeccak(res, n)
+			}
+		}
+	}
 	if rootBz, ok := rootAt(sp, res.Store); ok {
 		root := common.BytesToHash(rootBz)
 		res.Mpt = append(res.Mpt, verifyProofOracle(root, crypto.Keccak256(contract), fromHexAll(p.AccountProof)))
@@ -1452,10 +1463,61 @@ func main() {
 	n := flag.Int("n", 100, "number of generated cases")
 	in := flag.String("in", "", "replay the specs of this JSONL file instead of generating")
 	out := flag.String("out", "out.jsonl", "output JSONL")
+	mode := flag.String("mode", "verify", "verify: VerifyPacketCommitment/Acknowledgement cases; mpt: trie.VerifyProof cases; delay: GetDelayBlock/GetDelayTime sweep")
 	flag.Parse()
 
 	o := hlib.NewOut(*out)
 	defer o.Close()
+	switch *mode {
+	case "mpt":
+		if *in != "" { // replay recorded (root, key, nodes) inputs
+			hlib.ReadLines(*in, func(line []byte) {
+				var mc MCase
+				if err := json.Unmarshal(line, &mc); err != nil {
+					panic(err)
+				}
+				nodes := [][]byte{}
+				for _, n := range mc.Nodes {
+					b := hlib.UnHex(n)
+					if b == nil {
+						b = []byte{}
+					}
+					nodes = append(nodes, b)
+				}
+				o.Emit(runMpt(mc.ID, mc.Family, common.BytesToHash(hlib.UnHex(mc.Root)), hlib.UnHex(mc.Key), nodes))
+			})
+			return
+		}
+		for _, mc := range directedMpt() {
+			o.Emit(mc)
+		}
+		root := hlib.NewRand(*seed ^ 0x6d7074)
+		for i := 0; i < *n; i++ {
+			r := root.Fork(uint64(i))
+			switch {
+			case i%2 == 0:
+				o.Emit(genCrafted(r, i))
+			case i%6 == 5:
+				o.Emit(genFullDB(r, i))
+			default:
+				o.Emit(genGethTrie(r, i))
+			}
+		}
+		return
+	case "delay":
+		if *in != "" {
+			hlib.ReadLines(*in, func(line []byte) {
+				var d DCase
+				if err := json.Unmarshal(line, &d); err != nil {
+					panic(err)
+				}
+				o.Emit(runDelay(d.NVals, d.BlockInterval, d.EthBlockDelay, d.EthTimeDelay))
+			})
+			return
+		}
+		delaySweep(hlib.NewRand(*seed^0x64656c), *n, func(d DCase) { o.Emit(d) })
+		return
+	}
 	if *in != "" {
 		hlib.ReadLines(*in, func(line []byte) {
 			var sp Spec
